@@ -51,7 +51,7 @@ MANIFEST = dict(
          'spread over the files. Closure (THE object registered under its name), acyclic inheritance and aliasing, the '
          'all_fields listings and the orders are also evaluated as invariants on the real objects of every accepted Api '
          '(generated models, seeds, accepted text mutants, every accepted case of comp.compile), and the declared members / '
-         'parents / alias targets of the parsed AST are compared with the real objects directly (judge_members).',
+         'parents / alias targets of the parsed AST are compared with the real objects directly (judge_members), as is the attribute dictionary of every route (one entry per member of stone_cfg.Route, inherited ones included: the declared value - tag reference, encoded Bytes, parsed Timestamp -, else the default, else None).',
     note='Trusted: Lean kernel, the correspondence harness, the REAL lexer / parser as the producer of the compile model`s '
          'input (the model starts where IRGenerator starts; what the parser drops is caught by the reference-image '
          'comparison, C11 / C03 are about the parser), harness/specgen.py (model -> text renderer), harness/apisig.py, '
